@@ -164,7 +164,8 @@ def run(model, col, tier):
                 col.bad("R18.1", f"{rel}:: {dotted(n.func)}({unparse(n.args[0])[:40]})", f"`{unparse(n)[:60]}` fixes the hash-seed dependent order of a set in a sequence", rel, n)
     # ---------------- R18.2 (i) fresh objects per compilation ----------------------
     cinit = pipe.cls.own_method("__init__")
-    col.check(all(isinstance(n.value, ast.List) for n in ast.walk(cinit) if isinstance(n, ast.Assign) and isinstance(n.targets[0], ast.Attribute) and n.targets[0].attr in ("astPasses", "irPasses")),
+    # (Pipeline resolved both lists to displays of GetPass() calls written in __init__, possibly through a local / list(..))
+    col.check(bool(pipe.ast_passes) and bool(pipe.ir_passes) and not pipe.oneshot,
               "R18.2", f"{COMPILER}::Compiler.__init__ builds the pass lists per instance", "astPasses/irPasses are list displays evaluated in __init__", None, COMPILER, cinit)
     col.check(not any(k in ("astPasses", "irPasses", "parser") for k in pipe.cls.class_attrs), "R18.2", f"{COMPILER}::Compiler has no class-level passes", "no pass list at class level", "pass objects are shared between Compiler instances", COMPILER, pipe.cls.node)
     pipe.check_pass_freshness(col, "R18.2")
